@@ -37,16 +37,28 @@ def is_date_spec(spec: str) -> bool:
 
 def is_short_date_spec(short_date: str) -> bool:
     """Returns True iff {short_date} is a valid short date."""
-    return len(short_date) == 6 and all(ch.isdigit() for ch in short_date)
+    if len(short_date) != 6 or not all(ch.isdigit() for ch in short_date):
+        return False
+    try:
+        from_short_date_spec(short_date)
+    except ValueError:
+        return False
+    return True
 
 
 def is_long_date_spec(long_date: str) -> bool:
     """Returns True iff {long_date} is a valid long date."""
-    return (
+    if not (
         len(long_date) == 10
         and {long_date[4], long_date[7]} == {"-"}
         and all(ch.isdigit() for ch in long_date.replace("-", ""))
-    )
+    ):
+        return False
+    try:
+        _from_long_date_spec(long_date)
+    except ValueError:
+        return False
+    return True
 
 
 def is_zid(zid: str) -> bool:
